@@ -426,6 +426,13 @@ def gen_C07(r):
     for d in scn["tasks"].values():
         if d.get("args") and r.random() < 0.3 and not d.get("inc"):
             d["args"] = d["args"] + [r.choice(S.ODD_STR_VALUES)]
+        # values that mean something to bash: the run string is `run`, then the args, then the options, as they are -
+        # the words and expansions bash makes of that string are part of the contract (seeded change C07g-1 quoted them)
+        if d["kind"] in ("exp", "cmd") and not d.get("inc") and not d.get("xg") and r.random() < 0.15:
+            if r.random() < 0.6:
+                d["args"] = list(d.get("args", [])) + [r.choice(S.SHELL_STR_VALUES)]
+            else:
+                d["options"] = dict(d.get("options", {}), **{r.choice(["mode", "dest"]): r.choice(S.SHELL_STR_VALUES)})
     # simple git sometimes, so that the cached-version branch of the snapshot is exercised
     ops = []
     if r.random() < 0.3:
@@ -1262,6 +1269,10 @@ def gen_C17(r):
                                cwds=("",), gap=r.choice([1.0, 2.0])))
         ops.append({"op": "gc", "flags": {"dry": r.random() < 0.2, "verbose": r.random() < 0.8},
                     "cwd": r.choice(["@expdir:%d" % r.randrange(8), "@insideexp:%d" % r.randrange(8)])})
+    if r.random() < 0.3:
+        for op in ops:
+            if op.get("cwd") and op["op"] != "git" and not op.get("env") and r.random() < 0.6:
+                op["via_symlink"] = True
     scn["history"] = ops
     return scn
 
